@@ -226,6 +226,40 @@ def writers_of(mod, cls, attr):
     return out
 
 
+def cross_thread_release(ctx, sym, mod, rule):
+    """The timeout arm runs in the grader thread while the patches were started in the student thread: a group
+    started under one thread identity must be stopped by _stop_patches called under another."""
+    from .. import symexec
+    from ..fdeval import Obj
+    sp = mod.func('Sandbox._stop_patches')
+    stp = mod.func('Sandbox._start_patches')
+
+    def patch_obj(name, rec):
+        o = Obj(name)
+        symexec.method(o, 'start', rec.stub(name + '.start'))
+        symexec.method(o, 'stop', rec.stub(name + '.stop'))
+        return o
+    current = {'ident': 1}
+    thread_calls = {'threading.get_ident': lambda: current['ident'], 'get_ident': lambda: current['ident'],
+                    'threading.current_thread': lambda: Obj('thread', ident=current['ident'],
+                                                            name='thread-%d' % current['ident']),
+                    'current_thread': lambda: Obj('thread', ident=current['ident'], name='thread-%d' % current['ident'])}
+    rec = symexec.Recorder()
+    p1, p2 = patch_obj('p1', rec), patch_obj('p2', rec)
+    me = symexec.self_obj(mod, 'Sandbox', _current_patches=[], _current_stdout=[])
+    fd = symexec.new_fd(sym, mod, calls=thread_calls)
+    _, raised1 = symexec.run(fd, stp, [p1, p2], bound_self=me, what='Sandbox._start_patches')
+    current['ident'] = 2
+    _, raised2 = symexec.run(fd, sp, [], bound_self=me, what='Sandbox._stop_patches')
+    stops = sorted(e[0] for e in rec.events if e[0].endswith('.stop'))
+    ctx.check(raised1 is None and raised2 is None and stops == ['p1.stop', 'p2.stop'] and
+              not me.attrs['_current_patches'], rule, '_stop_patches:other-thread', mod, sp,
+              "patches started in one thread are not stopped by _stop_patches called from another thread (stopped: "
+              "%s, stack left: %d)" % (stops, len(me.attrs['_current_patches'])),
+              "a threaded run that times out: the grader's arm cannot release what the abandoned student thread "
+              "started, so sys.stdout / sys.modules / time.sleep stay patched")
+
+
 def r3_release_complete_and_owned(ctx, mod, sym):
     ctx.rule('R3', "_stop_mocking = _stop_patches() + exactly one _current_stdout.pop(); _stop_patches pops one "
                    "tuple and stops every element; the two stacks are pushed/popped only by the paired helpers; "
@@ -272,23 +306,7 @@ def r3_release_complete_and_owned(ctx, mod, sym):
                       '' if raised is None else ' (raises %s)' % raised.kind, want_events),
                   "a patch of the popped group (sys.modules / sys.stdout / time.sleep) stays active, or an outer "
                   "execution's patches are stopped")
-    # the timeout arm runs in the grader thread while the patches were started in the student thread: a group
-    # started under one thread identity must be stopped by _stop_patches called under another
-    rec = symexec.Recorder()
-    p1, p2 = patch_obj('p1', rec), patch_obj('p2', rec)
-    me = symexec.self_obj(mod, 'Sandbox', _current_patches=[], _current_stdout=[])
-    current['ident'] = 1
-    fd = symexec.new_fd(sym, mod, calls=thread_calls)
-    _, raised1 = symexec.run(fd, stp, [p1, p2], bound_self=me, what='Sandbox._start_patches')
-    current['ident'] = 2
-    _, raised2 = symexec.run(fd, sp, [], bound_self=me, what='Sandbox._stop_patches')
-    stops = sorted(e[0] for e in rec.events if e[0].endswith('.stop'))
-    ctx.check(raised1 is None and raised2 is None and stops == ['p1.stop', 'p2.stop'] and
-              not me.attrs['_current_patches'], 'R3', '_stop_patches:other-thread', mod, sp,
-              "patches started in one thread are not stopped by _stop_patches called from another thread (stopped: "
-              "%s, stack left: %d)" % (stops, len(me.attrs['_current_patches'])),
-              "a threaded run that times out: the grader's arm cannot release what the abandoned student thread "
-              "started, so sys.stdout / sys.modules / time.sleep stay patched")
+    cross_thread_release(ctx, sym, mod, 'R3')
     # _start_patches: records the group, then starts every patch once
     rec = symexec.Recorder()
     p1, p2 = patch_obj('p1', rec), patch_obj('p2', rec)
